@@ -51,6 +51,7 @@ RULE = ("Hypothesis-generated cases, six clauses. roundtrip / rotation: one dire
         "obliquity / observer latitude at a range end, or a degenerate / sub-arcsecond "
         "triple; distinct = distinct case.")
 ASSUMPTIONS = [
+    "in one case out of three the conversion is called with Angle objects that already served another call of the same function and were then changed in place with set(): an Angle is an Angle, whatever its history",
     "circle_diameter is asserted only when every non-zero mutual separation of the three bodies is at least 1e-7 deg, the lower end of the separation range the property states (found by the thorough tier: at 1e-126 deg the side products underflow and the routine divides by zero; not a stated case)",
     "directions are compared as angles on the sphere (tolerance 1e-9 deg as stated); a "
     "longitude is never compared directly",
@@ -103,7 +104,19 @@ def convert(frame, dirn, lon, lat, par):
     """Call the library; returns (lon_out, lat_out, site)."""
     fwd, inv, sf, si = FRAMES[frame]
     fn, site = (fwd, sf) if dirn == "fwd" else (inv, si)
-    if frame == "gal":
+    if int(abs(lon) * 1000.0) % 3 == 0:
+        # one case in three: the caller re-uses its Angle objects - they served another call
+        # of the same function with other values and were then changed in place with set()
+        args = [Angle((lon + 123.4) % 360.0), Angle(-lat / 2.0)] + ([] if frame == "gal" else
+                                                                     [Angle(par / 2.0 + 1.0)])
+        try:
+            fn(*args)
+        except Exception:
+            pass
+        for obj, val in zip(args, [lon, lat] + ([] if frame == "gal" else [par])):
+            obj.set(val)
+        a, b = fn(*args)
+    elif frame == "gal":
         a, b = fn(Angle(lon), Angle(lat))
     else:
         a, b = fn(Angle(lon), Angle(lat), Angle(par))
